@@ -69,6 +69,13 @@ pub fn scenarios(thorough: bool) -> Vec<Sc> {
         // a stopper, a drainer and a killer at once
         v.push(base(kind, Variant::Linked, Site::Handle, P::Awaits, Closer::StopDrainKill));
         v.push(base(kind, Variant::Plain, Site::PostStop, P::Awaits, Closer::StopDrainKill));
+        // a failure while the actor is draining a backlog is still a failure
+        v.push(base(kind, Variant::Linked, Site::Handle, P::Err, Closer::Drain));
+        v.push(base(kind, Variant::Plain, Site::Handle, P::Panic, Closer::Drain));
+        let mut sd = base(kind, Variant::Linked, Site::Sup, P::Err, Closer::Drain);
+        sd.child = true;
+        sd.senders = 1;
+        v.push(sd);
         let mut p = base(kind, Variant::LinkedInstant, Site::Handle, P::Awaits, Closer::Drain);
         p.pg_event = true;
         p.senders = 1;
